@@ -294,9 +294,16 @@ def check(tier, seed, replay=None):
             nm = rewrite.Named()
             render.model_text(m, nm)           # collects the constants
             ktext = render.model_text(m, nm)
+            kvals = {k_: float(eval(v.strip("()").replace("(-", "-"))) for k_, v in nm.consts.items()}
+            kapi = kvals
+            if i % 2 == 1 and kvals:
+                # every second case: the caller supplies b<k> = k - 1 and the text derives `let k = b<k> + 1` in its
+                # where block - a constant of the text computed from a constant of the API (the API's are declared first)
+                ktext = render.model_text(m, nm, consts={k_: f"b{k_} + 1" for k_ in kvals})
+                kapi = {f"b{k_}": v - 1 for k_, v in kvals.items()}
             case = dict(m, id=c["id"], plan=plan, decoy=DECOY,
                         text=render.program_min(m, style=i % 2, named=False) if not named else named_text(m, i % 2),
-                        ktext=ktext, kconsts=[{"name": k_, "v": float(eval(v.strip("()").replace("(-", "-")))} for k_, v in nm.consts.items()])
+                        ktext=ktext, kconsts=[{"name": k_, "v": v} for k_, v in kapi.items()])
             # probes: expression trees that are not part of the model, over its variables, for eval() at the solution
             names_ = {d_["name"] for d_ in m["dom"]}
             ok_ = [t_ for t_ in probe_pool if _tree_vars(t_) <= names_]
